@@ -105,13 +105,15 @@ def _analyze(o, excludes, post, T, tpath, workdir, tag):
     return "refuted", msgs, cex, stats
 
 
-def replay(o, args, timeout=120):
+def replay(o, args, timeout=120, no_known=False):
     """re-execute the obligation concretely in a fresh interpreter without CrossHair tracing"""
     cmd = [sys.executable, "-m", "chx.replay", o.module, o.prop, o.oid, json.dumps(args)]
+    env = dict(os.environ, PYTHONPATH=HERE)
+    if no_known:
+        env["CHX_NO_KNOWN"] = "1"
     try:
         p = subprocess.run(
-            cmd, cwd=HERE, capture_output=True, text=True, timeout=timeout,
-            env=dict(os.environ, PYTHONPATH=HERE),
+            cmd, cwd=HERE, capture_output=True, text=True, timeout=timeout, env=env,
         )
     except subprocess.TimeoutExpired:
         return {"diag": "HANG: no result within %d s wall clock" % timeout, "hang": True}
